@@ -45,6 +45,8 @@ type gbCase struct {
 	// HoldDialMs: every dialled connection is kept this long before its first call (a brokered server must outlive the
 	// 5 s in which its connection info can be picked up)
 	HoldDialMs int `json:"hold_dial_ms,omitempty"`
+	// ZeroID: the id called 1000 in the events is 0 on the wire (ids are chosen by the caller; 0 is one of them)
+	ZeroID bool `json:"zero_id,omitempty"`
 }
 
 func init() {
@@ -55,7 +57,7 @@ func init() {
 // ids < 1000: the host accepts and the plugin dials; ids >= 1000: the plugin accepts and the host dials
 func genGrpcBroker(o opts, mux bool) []gbCase {
 	r := hk.Rng(o.seed + 83)
-	n := 13
+	n := 14
 	if o.tier == "thorough" {
 		n = 83
 	}
@@ -93,6 +95,14 @@ func genGrpcBroker(o opts, mux bool) []gbCase {
 					id += 1000
 				}
 				t = pair(&c, t, id, r.Intn(2) == 0, hk.Pick(r, []int{5, 100, 300, 1200})) + 700
+			}
+			// ids are the caller's choice: 0 is one of them, in either direction
+			switch k % 4 {
+			case 0:
+				c.ZeroID = true
+				t = pair(&c, t, 1000, k%8 == 0, 100) + 700
+			case 3:
+				t = pair(&c, t, 0, true, 100) + 700
 			}
 			if k%4 == 2 { // two dials to one id nobody accepts (each waits out its 5 s knock), then a fresh establishment
 				side, id := "plugin", uint32(80)
@@ -134,6 +144,9 @@ func genGrpcBroker(o opts, mux bool) []gbCase {
 		c := gbCase{AutoMTLS: i%3 == 1, Events: evs, Kind: "directed", Translate: i%4 == 0, SlowServeMs: 200 * (i % 2)}
 		cs = append(cs, c)
 	}
+	// a dial that is already waiting when the other side starts to accept, and a brokered server whose set-up takes long: the
+	// connection information must go out when the listener exists, not when the server is ready
+	cs = append(cs, gbCase{Kind: "directed-slow-factory", SlowServeMs: 3500, Events: []gbEvent{{0, "host", "dial", 1010}, {2000, "plugin", "accept", 1010}, {0, "plugin", "dial", 10}, {2000, "host", "accept", 10}}})
 	// connections dialled inside the window and first used after it
 	cs = append(cs, gbCase{Kind: "directed-late-first-call", HoldDialMs: 6400, Events: []gbEvent{{0, "plugin", "accept", 1010}, {100, "host", "dial", 1010}, {0, "host", "accept", 10}, {100, "plugin", "dial", 10}}})
 	for len(cs) < n {
@@ -181,7 +194,7 @@ func genGrpcBroker(o opts, mux bool) []gbCase {
 		evs = append(evs, gbEvent{base, "host", "accept", 500}, gbEvent{base + 150, "plugin", "dial", 500},
 			gbEvent{base + 300, "host", "dial", 1500}, gbEvent{base + 450, "plugin", "accept", 1500})
 		cs[i].Events = evs
-		cs[i].Horizon = base + 1500
+		cs[i].Horizon = base + 1500 + cs[i].SlowServeMs
 	}
 	return cs
 }
@@ -219,20 +232,35 @@ func runOneGrpcBroker(c gbCase) []struct{ in, obs sx.V } {
 	if err == nil {
 		gb := caller.GRPC()
 		start := time.Now()
+		wire := func(id uint32) uint32 {
+			if c.ZeroID && id == 1000 {
+				return 0
+			}
+			return id
+		}
+		unwire := func(id uint32) int {
+			if c.ZeroID && id == 0 {
+				return 1000
+			}
+			return int(id)
+		}
 		for i, e := range c.Events {
 			go func(i int, e gbEvent) {
 				time.Sleep(time.Until(start.Add(time.Duration(e.AtMs) * time.Millisecond)))
 				switch {
 				case e.Side == "host" && e.Kind == "accept":
 					set(i, result{5, int(e.ID)})
-					gb.AcceptAndServe(e.ID, func(opts []grpc.ServerOption) *grpc.Server {
+					gb.AcceptAndServe(wire(e.ID), func(opts []grpc.ServerOption) *grpc.Server {
 						time.Sleep(time.Duration(c.SlowServeMs) * time.Millisecond)
 						s := grpc.NewServer(opts...)
-						vp.Register(s, hostWho(e.ID), gb)
+						vp.Register(s, hostWho(wire(e.ID)), gb)
 						return s
 					})
 				case e.Side == "plugin" && e.Kind == "accept":
-					req := vp.Req{Op: "accept", ID: e.ID}
+					req := vp.Req{Op: "accept", ID: wire(e.ID)}
+					if wire(e.ID) == 0 {
+						req.V = "id0"
+					}
 					if c.SlowServeMs > 0 {
 						req.K, req.N2 = "slow", c.SlowServeMs
 					}
@@ -243,7 +271,7 @@ func runOneGrpcBroker(c gbCase) []struct{ in, obs sx.V } {
 						set(i, result{6, -1})
 					}
 				case e.Side == "host" && e.Kind == "dial":
-					cc, err := gb.Dial(e.ID)
+					cc, err := gb.Dial(wire(e.ID))
 					if err != nil {
 						set(i, result{2, -1})
 						return
@@ -257,18 +285,26 @@ func runOneGrpcBroker(c gbCase) []struct{ in, obs sx.V } {
 						set(i, result{2, -1})
 						return
 					}
-					set(i, result{1, int(out.ID)})
+					if out.S != "plugin-served" {
+						set(i, result{1, -2}) // answered by something that is not a brokered server (the main service)
+						return
+					}
+					set(i, result{1, unwire(out.ID)})
 				case e.Side == "plugin" && e.Kind == "dial":
 					hold := 0
 					if e.AtMs < 5000 {
 						hold = c.HoldDialMs
 					}
-					out, err := caller.Call(vp.Req{Op: "dial", ID: e.ID, N2: hold})
+					out, err := caller.Call(vp.Req{Op: "dial", ID: wire(e.ID), N2: hold})
 					if err != nil || out.Err != "" {
 						set(i, result{2, -1})
 						return
 					}
-					set(i, result{1, int(out.ID)})
+					if out.S != "host-served" {
+						set(i, result{1, -2})
+						return
+					}
+					set(i, result{1, unwire(out.ID)})
 				}
 			}(i, e)
 		}
